@@ -680,3 +680,72 @@ def tomo_gen(which, L):
             a[f"idx{j}"] = rng.randint(0, 1)
         return a
     return g
+
+
+# ------------------------------------------------------------------ StandardQTomography._validate_schedules_str
+
+SQT = "quara.protocol.qtomography.standard.standard_qtomography"
+
+
+def schedules_str_contract():
+    """the string form of the schedules argument: accepted <=> it is exactly "all" (every other string, the empty one and the proper
+    substrings of "all" included, raises ValueError)"""
+    target = SQT + ":StandardQTomography._validate_schedules_str"
+
+    def make_inputs(mode=None):
+        if mode is not None and mode[0] == "bounds":
+            return dict(bounds=[])
+        s = mode[1]["s"] if (mode is not None and mode[0] == "concrete") else kind_sym("s")
+        return dict(args=dict(self=Obj("self"), schedules=s), requires=[], ghost=dict(s=s))
+
+    def post(ctx):
+        s = ctx.ghost["s"]
+        is_all = (s == str_const("all")) if z3.is_expr(s) else z3.BoolVal(s == "all")
+        if ctx.kind == "raise":
+            return [("accepts-iff-all", z3.Not(is_all)), ("rejects-with-ValueError", z3.BoolVal(ctx.exc == "ValueError"))]
+        return [("accepts-iff-all", is_all), ("rejects-with-ValueError", z3.BoolVal(True))]
+
+    def canary(ctx):
+        if ctx.kind == "raise":
+            return []
+        s = ctx.ghost["s"]
+        return [("accepts-iff-all", s == str_const("ALL"))]
+
+    def concretize(model, inputs, ghost):
+        return dict(s=py_of(model, ghost["s"]))
+
+    def native_call(a):
+        from qverif.core import native as N
+        cls = N.resolve(SQT + ":StandardQTomography")
+        o = cls.__new__(cls)
+        try:
+            o._validate_schedules_str(a["s"])
+            return ("return", None)
+        except Exception as e:  # noqa
+            return ("raise", type(e).__name__)
+
+    def native_check(a, outcome):
+        if outcome[0] == "raise":
+            return {"accepts-iff-all": a["s"] != "all", "rejects-with-ValueError": outcome[1] == "ValueError"}
+        return {"accepts-iff-all": a["s"] == "all", "rejects-with-ValueError": True}
+
+    def canary_native(a, outcome):
+        if outcome[0] != "return":
+            return {}
+        return {"accepts-iff-all": a["s"] == "ALL"}
+
+    c = Contract(target, make_inputs, post, canary=canary, concretize=concretize, native_check=native_check, native_call=native_call, prop="C20",
+                 scope="unbounded (all strings)",
+                 clause_text={"accepts-iff-all": "returns normally <=> the string is exactly \"all\"",
+                              "rejects-with-ValueError": "every other string raises ValueError"})
+    c.canary_native = canary_native
+    return c
+
+
+def schedules_str_gen():
+    def g(rng):
+        pool = ["all", "", "a", "l", "al", "ll", "ALL", "All", "all ", " all", "alll", "foo", "none", "al l"]
+        if rng.random() < 0.6:
+            return dict(s=rng.choice(pool))
+        return dict(s="".join(rng.choice("alAL _x") for _ in range(rng.randint(0, 4))))
+    return g
